@@ -10,7 +10,7 @@ import (
 func init() { registry["C15"] = checkC15 }
 
 func checkC15(c *Check) {
-	c.Explanation = "Structural necessary conditions of exactly-once in-order delivery, decided over package pubsub: (R1) confinement — the per-subscriber FIFO and the subscription set are touched only by the bus goroutine's loop, the subscriber constructor and the bus constructor, and the subscriber constructor is called only from the loop (so a clone's copy of the undelivered buffer is atomic with respect to emission); (R2) FIFO discipline — the buffer changes only by appending the just-published event (in subscriber mode) and by dropping its head; the only value ever offered on the output channel is the head of the buffer, offered only when the buffer is non-empty; the head is dropped exactly in the select case whose send of that value succeeded, on every path back to the loop head; a published event is forwarded to every subscription with the same value and the forwarding loop has no early exit; a clone starts with a copy of the parent's whole remaining buffer; (R3) escape — every channel operation of Publish/Subscribe sits in a select with the shutting-down case, the one bare receive is on a fresh channel of capacity >= 1 that the loop answers exactly once per request, and after the loop all children are shut down and awaited before the parent is notified."
+	c.Explanation = "Structural necessary conditions of exactly-once in-order delivery, decided over package pubsub: (R1) confinement — the per-subscriber FIFO and the subscription set are touched only by the bus goroutine's loop, the subscriber constructor and the bus constructor, and the subscriber constructor is called only from the loop (so a clone's copy of the undelivered buffer is atomic with respect to emission); (R2) FIFO discipline — the buffer changes only by appending the just-published event (in subscriber mode) and by dropping its head; the only value ever offered on the output channel is the head of the buffer, offered only when the buffer is non-empty; the head is dropped exactly in the select case whose send of that value succeeded, on every path back to the loop head; a published event is forwarded to every subscription with the same value and the forwarding loop has no early exit; a clone starts with a copy of the parent's whole remaining buffer; (R3) escape — every channel operation of Publish/Subscribe sits in a select with the shutting-down case, the one bare receive is on a fresh channel of capacity >= 1 that the loop answers exactly once per request, and after the loop all children are shut down and awaited before the parent is notified; (R4) the chain-event publisher (events.publishEvents / processEvents) starts no goroutine between taking a result off the tendermint subscription and bus.Publish."
 	c.NotDecided = "exactly-once / in-order delivery under all interleavings as a linearizability statement (goroutine scheduling between parent and child buses)"
 	l := c.L
 	run := l.Func("pubsub", "bus", "run")
@@ -382,5 +382,41 @@ func checkC15(c *Check) {
 			ok = waited && blockReaches(async.Block(), wait.Block())
 		}
 		c.Ob("R3", "on shutdown all children are stopped and awaited before the parent is notified", run.Pos(), ok, "")
+	}
+	// ---- R4 the chain-event publisher hands events to the bus in the order it received them: between taking a result
+	// off the tendermint subscription and bus.Publish nothing is deferred to another goroutine
+	{
+		pe := l.Func("events", "", "publishEvents")
+		c.Analysed(fnName(pe))
+		npub := 0
+		okSeq := true
+		why := ""
+		for _, g := range fnAndClosuresDeep(pe) {
+			eachInstr(g, func(i ssa.Instruction) {
+				if gi, isGo := i.(*ssa.Go); isGo {
+					okSeq = false
+					why = "a goroutine is started at " + l.Pos(gi.Pos()) + " on the way from the subscription to the bus: events of consecutive results can overtake each other"
+				}
+			})
+		}
+		// processEvents and below (pinned callees) as well
+		for _, name := range []string{"processEvents", "processEvent"} {
+			g := l.Func("events", "", name)
+			c.Analysed(fnName(g))
+			for _, h := range fnAndClosuresDeep(g) {
+				eachInstr(h, func(i ssa.Instruction) {
+					switch x := i.(type) {
+					case *ssa.Go:
+						okSeq = false
+						why = "a goroutine is started at " + l.Pos(x.Pos()) + " while publishing: publication order is no longer the order of the chain's events"
+					case *ssa.Call:
+						if calleeMethod(x) == "Publish" {
+							npub++
+						}
+					}
+				})
+			}
+		}
+		c.Ob("R4", "chain events reach the bus synchronously, in the order received", pe.Pos(), okSeq && npub >= 1, why)
 	}
 }
